@@ -45,6 +45,8 @@ type c17Set struct {
 	M    int
 	NEnc string // multi only: "" b1 b2
 	Desc string
+	// multi only: signatures supplied beyond the threshold M (the holders of keys M..M+Extra-1 signed as well)
+	Extra int
 }
 
 func (st c17Set) multi() bool { return len(st.Keys) > 1 }
@@ -190,6 +192,14 @@ func c17Multis(thorough bool) []c17Set {
 					out = append(out, st)
 					return true
 				})
+				// sorted order, more signatures than the threshold asks for (every holder up to n signed)
+				for extra := 1; m+extra <= n; extra++ {
+					st := c17Set{M: m, Extra: extra, Desc: fmt.Sprintf("%d-of-%d %s sorted, %d signatures supplied", m, n, pn, m+extra)}
+					for _, k := range sorted {
+						st.Keys = append(st.Keys, c17KeyUse{k, "canon", ""})
+					}
+					out = append(out, st)
+				}
 				// sorted order, one position in an alternative key encoding / push form; n as bytes
 				if n == 4 && !thorough {
 					continue
@@ -293,7 +303,7 @@ func (c c17Tx) build() []byte {
 	var sets []c1617RawSet
 	for _, st := range c.Sets {
 		var sigs [][]byte
-		for i := 0; i < st.M; i++ {
+		for i := 0; i < st.M+st.Extra; i++ {
 			sigs = append(sigs, c1617Sign(st.Keys[i].Key, hash))
 		}
 		sets = append(sets, c1617RawSet{c1617Invoke(sigs), st.script()})
